@@ -33,7 +33,8 @@ def build(run):
         cbuild.obj(run, os.path.join(vf.REPO, mframe.TRXCON_DESC_C), "c11_sched_lchan_desc", flags=flags, includes=inc,
                    compiler="clang"),
         cbuild.obj(run, os.path.join(vf.ROOT, "harness/c/c11_sched_harness.c"), "c11_sched_harness",
-                   flags=SAN + ["-O0", '-DC11_SCHED_MFRAME_C="%s"' % os.path.join(vf.REPO, TRX_SRC)], includes=inc,
+                   flags=SAN + ["-O0"] + ['-DC11_SCHED_MFRAME_C="%s"' % mframe.trxcon_sources()[0]] +
+                         ['-DC11_SCHED_EXTRA%d_C="%s"' % (i + 1, q) for i, q in enumerate(mframe.trxcon_sources()[1:3])], includes=inc,
                    compiler="clang"),
     ]
     run.c11_sched = cbuild.link(run, objs, "c11_sched_harness.bin", flags=SAN + ["-Wl,--wrap=l1sched_mframe_layout"],
